@@ -365,7 +365,9 @@ impl Ord for Uri {
 
 impl Hash for Uri {
 	fn hash<H: hash::Hasher>(&self, state: &mut H) {
-		self.parts().hash(state)
+		// Must be the same as the hash of the reference, since
+		// `Uri: Borrow<UriRef>`.
+		self.as_uri_ref().hash(state)
 	}
 }
 
